@@ -110,13 +110,23 @@ func histShape(h string) (shape string, total, mToR int64) {
 	return
 }
 
-// caseLess is the total order used to pick the minimal case of a violation class: every time-grid
-// case precedes every history case (so a class that a plain original+replay pair exhibits keeps the
-// signature it always had); histories order by number of deliveries, time between M and R, total
-// time, |offset|, then text.
+// caseLess is the total order used to pick the minimal case of a violation class: a plain
+// original+replay pair precedes every history (a class such a pair exhibits keeps the signature it
+// always had), a history (at most 4 deliveries) precedes a pair with eviction ticks in between (one
+// delivery per 61 s); histories order by number of deliveries, time between M and R, total time,
+// |offset|, then text.
 func caseLess(a, b Case) bool {
-	if (a.Hist == "") != (b.Hist == "") {
-		return a.Hist == ""
+	rank := func(c Case) int { // plain pair < history < pair with eviction ticks (up to a dozen deliveries)
+		switch {
+		case c.Hist != "":
+			return 1
+		case c.Ticks:
+			return 2
+		}
+		return 0
+	}
+	if ra, rb := rank(a), rank(b); ra != rb {
+		return ra < rb
 	}
 	absneg := func(c Case) (int64, int64) {
 		if c.OffS < 0 {
